@@ -544,13 +544,46 @@ func (t *FnTrans) computeLoopWrites() {
 			}
 		}
 		if hasCall && t.ct != nil {
-			// ghost statements of this function attached to call sites may run inside the loop
+			// ghost statements of this function attached to call sites may run inside the loop: those whose call
+			// site name matches a call in the loop body (or all of them, if some call in the body cannot be named)
+			names := map[string]bool{}
+			unnamed := false
+			for b := range l.body {
+				for _, in := range b.Instrs {
+					var c *ssa.CallCommon
+					switch x := in.(type) {
+					case *ssa.Call:
+						c = &x.Call
+					case *ssa.Defer:
+						c = &x.Call
+					case *ssa.Go:
+						c = &x.Call
+					default:
+						continue
+					}
+					if _, isB := c.Value.(*ssa.Builtin); isB {
+						continue
+					}
+					if n := t.staticCallName(c); n != "" {
+						names[n] = true
+					} else {
+						unnamed = true
+					}
+				}
+			}
 			for _, g := range t.ct.Ghost {
 				if !strings.HasPrefix(g.Arg, "before call ") && !strings.HasPrefix(g.Arg, "after call ") {
 					continue
 				}
 				if strings.HasPrefix(g.Text, "assert ") || strings.HasPrefix(g.Text, "assume ") {
 					continue
+				}
+				site := g.Arg[strings.Index(g.Arg, "call ")+5:]
+				if k := strings.Index(site, " #"); k >= 0 {
+					site = site[:k]
+				}
+				if !unnamed && !names[site] {
+					continue // attached to a call that does not occur in this loop
 				}
 				i := strings.Index(g.Text, "=")
 				if i <= 0 {
@@ -1151,6 +1184,17 @@ func (t *FnTrans) staticMod(x *Expr, ptypes map[string]types.Type, pkg *types.Pa
 			t.wElem(l, T)
 		}
 		return true
+	case x.Op == "call" && x.Name == "allmaps":
+		T := t.staticType(x.Args[0], ptypes)
+		if T == nil {
+			return false
+		}
+		mt, ok := t.resolve(T).Underlying().(*types.Map)
+		if !ok {
+			return false
+		}
+		t.wMap(l, mt)
+		return true
 	case x.Op == "call" && x.Name == "map":
 		T := t.staticType(x.Args[0], ptypes)
 		if T == nil {
@@ -1366,4 +1410,35 @@ func (t *FnTrans) setAll(l *loopInfo, why int) {
 	if os.Getenv("GOVC_DEBUG_LOOP") != "" {
 		fmt.Fprintf(os.Stderr, "loop-havoc-all in %s: misc.go:%d\n", t.fn.Name(), why)
 	}
+}
+
+// staticCallName: the name under which ghost positions refer to this call ("Type.Method", "Func", "Type#field"),
+// "" if it cannot be determined statically
+func (t *FnTrans) staticCallName(c *ssa.CallCommon) string {
+	n := ""
+	if c.IsInvoke() {
+		n = ifaceKey(t.resolve(c.Value.Type()), c.Method)
+	} else if f := c.StaticCallee(); f != nil {
+		n = fnKey(f)
+	} else if u, ok := c.Value.(*ssa.UnOp); ok {
+		if fa, ok := u.X.(*ssa.FieldAddr); ok {
+			if pt, ok := t.resolve(fa.X.Type()).Underlying().(*types.Pointer); ok {
+				if nt, ok := t.resolve(pt.Elem()).(*types.Named); ok {
+					if st, ok := nt.Underlying().(*types.Struct); ok {
+						n = typeName(nt.Origin()) + "#" + st.Field(fa.Field).Name()
+					}
+				}
+			}
+		}
+	}
+	if n == "" {
+		return ""
+	}
+	if i := strings.LastIndex(n, "/"); i >= 0 {
+		n = n[i+1:]
+	}
+	if i := strings.Index(n, "."); i >= 0 {
+		n = n[i+1:]
+	}
+	return n
 }
